@@ -41,7 +41,7 @@ WINDOWS_Q = ['hamming', 'hann', 'boxcar', 'blackman']
 WINDOWS_T = WINDOWS_Q + ['bartlett', 'blackmanharris', ['kaiser', 8.0]]
 BIG_Q = [(8, 64, 'hamming'), (4, 128, 'hann')]                       # realistic sizes, short streams
 BIG_T = BIG_Q + [(8, 1024, 'hamming'), (12, 256, 'blackman'), (8, 1024, ['kaiser', 8.0])]
-KINDS = ['noise_tone', 'int_ramp', 'complex']
+KINDS = ['noise_tone', 'int_ramp', 'complex', 'burst']
 KINDS_T = KINDS + ['float32', 'complex64']
 LONG_C = 6             # thorough: streams of >= LONG_C windows are run for the quick box of configurations only
 ALLPOS_C = 4           # thorough: impulse trains at ALL M*P offsets for streams of <= ALLPOS_C windows, 3 offsets beyond
@@ -68,6 +68,13 @@ def make_input(kind, n, M, P, seed, salt, pos=0):
         return rng.standard_normal(n) + 1j * (rng.standard_normal(n) + np.sin(0.23 * t + salt))
     if kind == 'complex64':
         return (rng.standard_normal(n) + 1j * rng.standard_normal(n)).astype(np.complex64)
+    if kind == 'burst':
+        # live samples in the first window only, exact zeros afterwards: whole later chunks are silent while the filter is
+        # still ringing down from what the cache holds
+        x = np.zeros(n)
+        N = M * P
+        x[:N] = rng.standard_normal(N) + 1.5
+        return x
     if kind == 'impulse':
         # sparse train: one spike per window, amplitude j+1, offset advancing by P+1 per window, so every tap/branch
         # alignment is visited and every seam has a non-zero spectrum across it
